@@ -5,6 +5,8 @@ verus! {
 //@include shims/core.rs
 //@include shims/alloc_free.rs
 //@include shims/cursor.rs
+//@include shims/asref.rs
+//@include shims/codecs.rs
 //@include spec/hash.rs
 //@enum BSVErrors @ src/errors/mod.rs
 //@enum OpCodes @ src/script/op_codes.rs clone copy partialeq eq
